@@ -220,7 +220,7 @@ Definition pay_open (s : state) (cn : conn) : bool :=
 
 Definition proto_should_close (s : state) (cn : conn) : bool :=
   should_close_gen (c_sc cn) (pay_open s cn) (c_upg cn) (negb (c_exc cn =? 0)) false
-                   (nonempty (c_buf cn)) (nonempty (c_htail cn)).
+                   (nonempty (c_buf cn)) (nonempty (c_htail cn)) (c_parser cn && c_ptail cn).
 
 (* ResponseHandler.close(): transport.close(); transport = None; _payload = None; _exception = None *)
 Definition close_proto (cn : conn) : conn :=
@@ -294,9 +294,10 @@ Definition parse_tok (cf : cfg) (s : state) (g : seg) (tk : token) (tg : tag) : 
         Some (set_conn (set_payl s pid pl) c (set_c_pst cn (PSBody pid (rem - n))), g)
       else
         let s1 := set_payl s pid (set_p_cb (set_p_eof pl true) None) in
-        let s2 := set_conn s1 c (set_c_ptail (set_c_pst cn PSHead) (rem <? n)) in
-        let s3 := if rem <? n then surplus_tail s2 cn else s2 in
-        Some (match p_cb pl with Some e => response_eof cf s3 e | None => s3 end, g)
+        let s2 := set_conn s1 c (set_c_pst cn PSHead) in
+        let s3 := match p_cb pl with Some e => response_eof cf s2 e | None => s2 end in
+        (* bytes beyond the announced length reach the parser's line buffer after the end-of-body callbacks ran *)
+        Some (if rem <? n then surplus_tail (set_conn s3 c (set_c_ptail (s_conn s3 c) true)) cn else s3, g)
   | PSBody _ _, _ => None
   | PSHead, KHead id blen cl up =>
       if c_ptail cn || c_psc cn then Some (parse_error s g)
